@@ -3,7 +3,7 @@ from __future__ import annotations
 
 import random
 
-from . import calcfg, calcheck
+from . import calcfg, calcheck, tlc
 from .common import Check, quiet
 
 RELEVANT = {"C09"}
@@ -42,6 +42,33 @@ def ctor_traces() -> list[dict]:
     cfg = {"lineup": calcfg.LU["A"], "alts": [], "kind": "rr", "E": 1, "N": 8, "convon": False, "verbose": False, "saving": False,
            "modelevents": True}
     return [{"cfg": cfg, "ev": [e], "script": {"cfg": cfg, "ops": [["ctor", e["samplers"], e["scheduler"]]], "tlc_ops": ["ctor"]}} for e in evs]
+
+
+def shared_object_traces(rng: random.Random, n_cases: int) -> list[list[dict]]:
+    """line-ups that list the same sampler OBJECT in several slots, served by the real round-robin scheduler (LineUpTrace.tla)"""
+    import numpy as np
+
+    from black_it.samplers.halton import HaltonSampler
+    from black_it.samplers.random_uniform import RandomUniformSampler
+    from black_it.schedulers.round_robin import RoundRobinScheduler
+
+    out = []
+    for _ in range(n_cases):
+        pool = [HaltonSampler(batch_size=1), RandomUniformSampler(batch_size=2), RandomUniformSampler(batch_size=3)]
+        slots = [rng.randrange(3) for _ in range(rng.randint(2, 5))]
+        if len(set(slots)) == len(slots):
+            slots[-1] = slots[0]                       # at least one object twice
+        lineup = [pool[k] for k in slots]
+        with quiet():
+            sched = RoundRobinScheduler(lineup)
+            picks = []
+            with sched.session():
+                for b in range(2 * len(slots) + 1):
+                    smp = sched.get_next_sampler()
+                    picks.append([k for k in range(3) if pool[k] is smp][0] if any(pool[k] is smp for k in range(3)) else -1)
+                    sched.update(b, np.zeros((1, 1)), np.zeros(1), np.zeros((1, 1, 1, 1)))
+        out.append([{"objs": slots, "picks": picks, "kept": len(sched.samplers)}])
+    return out
 
 
 def random_lineup(rng: random.Random, n: int) -> list[dict]:
@@ -111,6 +138,12 @@ def run(tier: str) -> int:
     for t in traces[:2] + traces[-5:-3]:
         chk.sample({"kind": t["cfg"]["kind"], "lineup": t["cfg"]["lineup"], "ops": t["script"]["tlc_ops"], "events": [e["e"] for e in t["ev"]][:30]})
     calcheck.validate(chk, traces, relevant=RELEVANT | {"C10"})
+    so = shared_object_traces(rng, 12 if tier == "quick" else 120)
+    rso = tlc.validate("LineUpTrace", "LineUpTrace.cfg", {"traces": so})
+    chk.add_validation(rso)
+    chk.extra["shared_object_lineups"] = len(so)
+    for tid, why in rso["rejected"].items():
+        chk.violation("rr:shared-object-lineup", f"{why['why']}: {so[tid - 1][0]}", {"script": {"ops": [["shared"]], "case": so[tid - 1][0]}, "tlc": why})
     chk.extra["distinct_nontrivial"] = len({repr((t["cfg"]["lineup"], t["script"]["tlc_ops"])) for t in traces})
     return chk.finish("TLC behaviours (calls, checkpoints, restores; for RL every agent choice sequence) replayed on the real Calibrator "
                       "with recording samplers on line-ups of 1-6 samplers incl. repeated classes; the sampler object asked for every "
@@ -120,6 +153,13 @@ def run(tier: str) -> int:
 
 def replay(rep: dict) -> int:
     chk = Check("C09", "quick")
+    if rep["script"]["ops"] and rep["script"]["ops"][0][0] == "shared":
+        so = shared_object_traces(random.Random(1), 24)
+        rso = tlc.validate("LineUpTrace", "LineUpTrace.cfg", {"traces": so})
+        chk.add_validation(rso)
+        for tid, why in rso["rejected"].items():
+            chk.violation("rr:shared-object-lineup", f"{why['why']}: {so[tid - 1][0]}", {"script": rep["script"], "tlc": why})
+        return chk.finish("replay: line-ups with a shared sampler object")
     if rep["script"]["ops"] and rep["script"]["ops"][0][0] == "ctor":
         traces = ctor_traces()
     else:
